@@ -127,6 +127,22 @@ class Sched:
         if self.killing:
             raise Killed()
 
+    def others_idle(self, me):
+        """No other managed thread can run (used for 'think time' waits that must
+        not outlive the activity they are timed against)."""
+        if getattr(self, '_in_idle', False):
+            return False
+        self._in_idle = True
+        try:
+            for t in self.threads:
+                if t is me or t.finished:
+                    continue
+                if t.wait_cond is None or t.wait_cond():
+                    return False
+            return True
+        finally:
+            self._in_idle = False
+
     # ---- controller ----------------------------------------------------------
     def runnable(self):
         out = []
@@ -315,8 +331,19 @@ class Shim:
 
             def wait(self_, timeout=None):
                 s.yield_point('event.wait')
+                me = s.me()
+
+                def due():
+                    ia = getattr(s, 'interrupt_at', None)
+                    return (ia is not None and me is not None and me.name == ia[1]
+                            and s.step >= ia[0])
                 if not self_.flag:
-                    s.block_until(lambda: self_.flag, 'event')
+                    s.block_until(lambda: self_.flag or due(), 'event')
+                    if not self_.flag and due():
+                        # Ctrl-C delivered to a thread blocked in Event.wait
+                        s.interrupt_at = None
+                        s.log('keyboard_interrupt')
+                        raise KeyboardInterrupt()
                 return True
 
         class Condition:
